@@ -174,7 +174,9 @@ PROPS["C12"] = dict(
           "target (…/TnE); nesting (linked images, links inside lists/quotes/headers/pre), elements without href/src, widths 1..120. "
           "The rendering of String(width) is parsed (SGR stripped, whitespace and quote glyphs removed) into label and number tokens, "
           "bound with a stack; required: numbers are exactly 1..N, SelectLink(k) returns the target of the label bound to k, numbers "
-          "outside 1..N (0, -1, N+1, 1e9, int extremes) open nothing. Non-trivial: N >= 2 and (nested link, attachments, or width < 8). "
+          "outside 1..N (0, -1, N+1, 1e9, int extremes) open nothing. One attachment in eight is a member whose label cannot be "
+          "determined (no url and no name, or a name that is not a string): it must show its positional number next to the error text, "
+          "without a label, and open its own url or nothing. Non-trivial: N >= 2 and (nested link, attachments, or width < 8). "
           "Distinct = distinct (kind, document, attachments, width)."),
     units=[
         rapid("Prop", "TestProp", 24000, 600000),
@@ -184,7 +186,7 @@ PROPS["C12"] = dict(
               "numbers parsed back out of the real rendering and compared with SelectLink. Sampled."),
         design_ref="DESIGN.md §3 C12",
         note=("Trusted: the token parser in harness/c12 and the emulator; generated documents are well-nested so that the HTML parser "
-              "does not clone anchors; attachment members are well-formed (have a URL)."),
+              "does not clone anchors."),
         technique="property-based testing (rapid) with ground-truth labels and a round-trip through the rendering",
     ),
 )
